@@ -13,3 +13,15 @@ mkleaf server ca_a good.test "DNS:good.test" serverAuth
 mkleaf client_c ca_c client1 "DNS:client1.test" clientAuth
 mkleaf client_b ca_b client2 "DNS:client2.test" clientAuth
 rm -f *.srl
+# (added later) an intermediate CA under client CA C and a client leaf issued by it: a client identity that is a chain of two certificates
+mkinter() { # name ca subject
+  openssl ecparam -name prime256v1 -genkey -noout -out $1.key.sec1; openssl pkcs8 -topk8 -nocrypt -in $1.key.sec1 -out $1.key; rm $1.key.sec1
+  openssl req -new -key $1.key -subj "/CN=$3" -out $1.csr
+  printf "basicConstraints=critical,CA:TRUE,pathlen:0\nkeyUsage=critical,keyCertSign,cRLSign\n" > $1.ext
+  openssl x509 -req -in $1.csr -CA $2.pem -CAkey $2.key -CAcreateserial -days 36500 -sha256 -extfile $1.ext -out $1.pem; rm $1.csr $1.ext; }
+if [ ! -e ca_ci.pem ]; then
+  mkinter ca_ci ca_c "verif client sub-CA CI"
+  mkleaf client_ci ca_ci client3 "DNS:client3.test" clientAuth
+  cat client_ci.pem ca_ci.pem > client_chain.pem
+  rm -f *.srl
+fi
